@@ -4,6 +4,7 @@ import (
 	"fmt"
 	"sync"
 	"sync/atomic"
+	"time"
 )
 
 // X is one execution of a scenario body under the explorer. The body asks it
@@ -124,8 +125,10 @@ func (e *Explorer) Run() {
 				x := &X{prefix: p}
 				if e.Ctx != nil {
 					id := e.Ctx.BeginLimit(MkCase(e.Ctx.ID, "explorer-prefix", map[string]interface{}{"explorer": e.Name, "prefix": p}), "stall: an execution of explorer \""+e.Name+"\" did not return", StallLimit)
+					t0 := time.Now()
 					e.Body(x)
 					e.Ctx.End(id)
+					noteDone(time.Since(t0))
 				} else {
 					e.Body(x)
 				}
